@@ -32,8 +32,13 @@ def cid(c):
 
 
 def min_steps(c):
-    """A number of steps some input of this shape is known to need (twin threshold)."""
-    return 2 if (c['N'] + c['M'] >= 3 or (c['N'] >= 1 and c['M'] >= 1)) else 1
+    """A number of steps some input of this shape is known to need (twin threshold): a gvcf step followed by a vds
+    step when both kinds are present; otherwise two steps as soon as the inputs outnumber the smallest branch factor
+    of the shape (gvcf_batch_size 1)."""
+    b = c.get('bf') or 2
+    if c['N'] >= 1 and c['M'] >= 1:
+        return 2
+    return 2 if max(c['N'], c['M']) > b else 1
 
 
 def describe(c):
